@@ -552,6 +552,13 @@ impl OwnedLazyValue {
         if status == HasEsc::None {
             Self(LazyPacked::NonEscStrRaw(raw))
         } else {
+            // the literals have no raw form: `LazyRaw` only holds numbers, strings and containers
+            match raw.as_bytes() {
+                b"true" => return true.into(),
+                b"false" => return false.into(),
+                b"null" => return ().into(),
+                _ => {}
+            }
             Self(LazyPacked::Raw(LazyRaw {
                 raw,
                 parsed: AtomicPtr::new(std::ptr::null_mut()),
